@@ -32,7 +32,7 @@ Definition dec_dir (src dst : tval) : dirst :=
   dirwe (vb (vnth 0 src)) (map vnat (vl (vnth 1 src))) (vn (vnth 2 src)) (vbool (vnth 3 src)) (map vbool (vl (vnth 7 src)))
        (dec_optn (vnth 4 dst)) (vbool (vnth 5 dst)) (wrap_cfg (vn (vnth 6 dst))).
 Definition run_tcp (v : tval) : st tsh (nat * tpc) :=
-  run tsh (nat * tpc) (tstep CopyBufferSize)
+  run tsh (nat * tpc) (tstep CopyBufferSize false)
       (tcp_init (dec_dir (vnth 1 v) (vnth 2 v)) (dec_dir (vnth 2 v) (vnth 1 v)))
       (map vnat (vl (vnth 3 v))).
 Definition check_tcp (v : tval) : bool :=
@@ -57,12 +57,19 @@ Definition main_done (s : st bsh (nat * bpc)) : bool :=
 Definition check_own (v : tval) : bool :=
   let s := run_own v in main_done s && list_eqb (b_out (fst s)) (vb (vnth 3 v)).
 
+(* kind 4 — udpTunnelConn.ReceivePacket loop:  [4; stream; cuts; end; delivered] *)
+Definition run_tc (v : tval) : list dgram :=
+  let s := vb (vnth 1 v) in
+  tc_recv_all (S (length s)) {| rest := s; cuts := map vnat (vl (vnth 2 v)); endk := vn (vnth 3 v); carry := false |}.
+Definition check_tc (v : tval) : bool := dgrams_eqb (run_tc v) (map vb (vl (vnth 4 v))).
+
 Definition check (v : tval) : bool :=
   match vn (vnth 0 v) with
   | 0 => check_deframe v
   | 1 => check_encode v
   | 2 => check_tcp v
   | 3 => check_own v
+  | 4 => check_tc v
   | _ => false
   end.
 
@@ -79,5 +86,6 @@ Definition predict (v : tval) : tval :=
              VN (d_cw (sh_d1 sh)); VN (d_cw (sh_d0 sh)); VN (sh_ncl_a sh); VN (sh_ncl_b sh); VN (sh_io_after_close sh);
              VN (d_cwf (sh_d1 sh)); VN (d_cwf (sh_d0 sh))]
   | 3 => let s := run_own v in VL [vN_of_bool (main_done s); VB (b_out (fst s))]
+  | 4 => VL (map VB (run_tc v))
   | _ => VL []
   end.
